@@ -255,20 +255,22 @@ def recvMany (cfg : Cfg) (lid : Lid) : State → List (Addr × Bytes) → State 
     let r2 := recvMany cfg lid r1.1 ds
     (r2.1, r1.2 ++ r2.2)
 
-/-- mirrors udp_engine.hpp::onClient (EPOLLIN part). A zero-length read delivers an empty view and leaves the loop; whatever
-else is queued stays in the kernel until the next event (the environment presents it again). -/
+/-- `s->lastActivity = MonoClock::now()` in the `n > 0` branch of onClient -/
+def touchClient (st : State) (sid : Sid) : State :=
+  match st.sessions sid with
+  | none => st
+  | some s => { st with sessions := upd st.sessions sid (some { s with lastActivity := st.now }) }
+
+/-- mirrors udp_engine.hpp::onClient (EPOLLIN part), the loop body for the datagrams ONE wake-up reads (which ones those are — all that
+is queued, for the loop as written — is decided by `Model/UdpWake.lean` from the translated loop shape). A zero-length read
+(`n == 0`) delivers an empty view, does not touch `lastActivity`, and the loop goes on (`continue`, the FC06b repair; with the
+unrepaired `break` the wake-up simply ends there: `UdpWake.takeLoop` hands this function nothing behind a zero-length datagram). -/
 def clientRecvMany (cfg : Cfg) (sid : Sid) : State → List Bytes → State × List Out
   | st, [] => (st, [])
   | st, d :: ds =>
     let got := d.take cfg.ioReadChunk
-    if got = [] then (st, [.data sid []])
-    else
-      let st1 : State :=
-        match st.sessions sid with
-        | none => st
-        | some s => { st with sessions := upd st.sessions sid (some { s with lastActivity := st.now }) }
-      let r2 := clientRecvMany cfg sid st1 ds
-      (r2.1, .data sid got :: r2.2)
+    let r2 := clientRecvMany cfg sid (if got = [] then st else touchClient st sid) ds
+    (r2.1, .data sid got :: r2.2)
 
 /-- mirrors udp_engine.hpp::connectDo (resolution and `::connect` succeed) -/
 def connectDo (cfg : Cfg) (st : State) (addr : Addr) (v6 : Bool) : State × List Out :=
